@@ -400,9 +400,18 @@ func (p *Proxy) handleConnectRequest(ctx *Context, req *http.Request, session *S
 			// http.ReadRequest.
 			tlsconn := tls.Server(&peekedConn{conn, io.MultiReader(bytes.NewReader(b), bytes.NewReader(buf), conn)}, p.mitm.TLSForHost(req.Host))
 
-			if err := tlsconn.Handshake(); err != nil {
-				p.mitm.HandshakeErrorCallback(req, err)
-				return err
+			// A client that stalls in the middle of the handshake must not hold up a
+			// shutdown either.
+			hsc := make(chan error, 1)
+			go func() { hsc <- tlsconn.Handshake() }()
+			select {
+			case err := <-hsc:
+				if err != nil {
+					p.mitm.HandshakeErrorCallback(req, err)
+					return err
+				}
+			case <-p.closing:
+				return errClose
 			}
 			if tlsconn.ConnectionState().NegotiatedProtocol == "h2" {
 				if err := p.mitm.H2Config().Proxy(p.closing, tlsconn, req.URL); err != nil {
